@@ -8,7 +8,8 @@ CONSTANTS
   WatcherByEpoch = FALSE
   HookCurrent = FALSE
   SwapGuarded = FALSE
+  SupervisorOrClosed = FALSE
   AllowClose = TRUE
 VIEW View
-INVARIANTS TokenPerDial NoStreamDetached CallersSurvive NotificationsOnce NoPanic NoDialAfterClose NoCallerParkedWhenClosed SilentAfterDisconnect
+INVARIANTS TokenPerDial NoStreamDetached CallersSurvive NotificationsOnce NoPanic NoDialAfterClose NoCallerParkedWhenClosed NoSupervisorParkedWhenClosed SilentAfterDisconnect
 CHECK_DEADLOCK FALSE
